@@ -265,6 +265,27 @@ def fit(x, p):
         x.check('raw code starts at offset 0', area[0] == code[0])
     x.check('zero padding after the code', And(*[
         area[k] == 0 for k in range(size, min(size + 4, 0x3d00))]))
+    if not use_compressed:
+        # reading the raw area back: the whole code, also when it fills the
+        # area completely (no NUL terminator left)
+        try:
+            length, back, csize = p8png.get_code_from_bytes(area, 8)
+        except Exception as e:
+            x.check('a raw code area reads back', False, info=repr(e))
+            return
+        x.check('raw code length as stored', length == n)
+        if len(back) != n + 1:
+            x.check('raw code reads back completely (the reader adds a '
+                    'final newline)', False, info='length %d' % len(back))
+            return
+        # (the reader turns CR into a blank)
+        exp_seam = [Ite(c == 13, 32, c) for c in seam]
+        x.check('raw code reads back completely (the reader adds a final '
+                'newline)', And(len(back) == n + 1,
+                                back[n - 2] == exp_seam[0],
+                                back[n - 1] == exp_seam[1],
+                                back[n] == 10, back[0] == code[0],
+                                csize is None))
 
 
 def label_source(x, p):
